@@ -1241,6 +1241,250 @@ pub fn corpus() -> Vec<CorpusProg> {
         ],
         Traits { shared: true, stateful_top: true, ..tickp(false, &["tee", "tick-and-top"]) },
     );
+    // ------------------------------------------------------------------ atomic regions
+    b.add(
+        "a_enumerate",
+        &["i64"],
+        &[],
+        &[("(usize,i64)", Seq, None, Ref::Eventual(|f| enc(ints(f, 0).into_iter().enumerate().collect())))],
+        safe(true, &["atomic", "enumerate", "ordered"]),
+    );
+    b.add(
+        "a_scan_unique_limit",
+        &["i64"],
+        &[],
+        &[
+            (
+                "i64",
+                Seq,
+                None,
+                Ref::Eventual(|f| {
+                    let mut acc = 0;
+                    enc(ints(f, 0)
+                        .into_iter()
+                        .map(|x| {
+                            acc += x;
+                            acc
+                        })
+                        .collect())
+                }),
+            ),
+            (
+                "i64",
+                Seq,
+                None,
+                Ref::Eventual(|f| {
+                    let mut seen = vec![];
+                    for x in ints(f, 0) {
+                        if !seen.contains(&x) {
+                            seen.push(x);
+                        }
+                    }
+                    enc(seen)
+                }),
+            ),
+            ("i64", Seq, None, Ref::Eventual(|f| enc(ints(f, 0).into_iter().take(3).collect()))),
+        ],
+        Traits { shared: true, ..safe(true, &["atomic", "scan", "unique", "limit", "ordered"]) },
+    );
+    b.add(
+        "a_fold_count",
+        &["i64"],
+        &[],
+        &[
+            ("usize", Final, Some(Promise::MonoSingleton), Ref::Eventual(|f| enc(vec![ints(f, 0).len()]))),
+            ("i64", Final, None, Ref::Eventual(|f| enc(vec![ints(f, 0).into_iter().fold(0i64, |a, x| a * 2 + x)]))),
+            ("i64", Seq, None, Ref::Eventual(|f| enc(ints(f, 0)))),
+        ],
+        Traits { shared: true, ..safe(true, &["atomic", "fold", "count"]) },
+    );
+    b.add(
+        "a_reduce_max_first",
+        &["i64"],
+        &[],
+        &[
+            ("i64", Final, None, Ref::Eventual(|f| enc(ints(f, 0).into_iter().max().into_iter().collect()))),
+            ("i64", Final, None, Ref::Eventual(|f| enc(ints(f, 0).first().cloned().into_iter().collect()))),
+            ("i64", Final, None, Ref::Eventual(|f| enc(ints(f, 0).into_iter().reduce(|a, x| a * 2 + x).into_iter().collect()))),
+        ],
+        Traits { shared: true, ..safe(true, &["atomic", "reduce", "max", "first"]) },
+    );
+    b.add(
+        "a_selfjoin",
+        &["(i64,i64)"],
+        &[],
+        &[(
+            "(i64,(i64,i64))",
+            Bag,
+            None,
+            Ref::Eventual(|f| {
+                let a = kvs(f, 0);
+                let b2: Vec<(i64, i64)> = a.iter().map(|(k, v)| (*k, v + 100)).collect();
+                enc(join_pairs(&a, &b2))
+            }),
+        )],
+        Traits { shared: true, ..safe(true, &["atomic", "join"]) },
+    );
+    b.add(
+        "a_keyed",
+        &["(i64,i64)"],
+        &[],
+        &[
+            ("(i64,(usize,i64))", KeyedSeq, None, Ref::Eventual(|f| enc(per_key(&kvs(f, 0), |_, vs| vs.iter().cloned().enumerate().collect())))),
+            (
+                "(i64,i64)",
+                KeyedSeq,
+                None,
+                Ref::Eventual(|f| {
+                    enc(per_key(&kvs(f, 0), |_, vs| {
+                        let mut acc = 0;
+                        vs.iter()
+                            .map(|v| {
+                                acc += v;
+                                acc
+                            })
+                            .collect()
+                    }))
+                }),
+            ),
+            ("(i64,i64)", Bag, Some(Promise::BoundedValue), Ref::Eventual(|f| enc(per_key(&kvs(f, 0), |_, vs| vec![vs[0]])))),
+            (
+                "(i64,i64)",
+                Final,
+                Some(Promise::MonoKeys),
+                Ref::Eventual(|f| enc(per_key(&kvs(f, 0), |_, vs| vec![vs.iter().fold(0i64, |a, v| a * 2 + v)]))),
+            ),
+        ],
+        Traits { shared: true, ..safe(true, &["atomic", "keyed", "fold_keyed", "scan", "enumerate"]) },
+    );
+    b.add(
+        "t_across_stream_ops",
+        &["i64"],
+        &[],
+        &[
+            (
+                "(usize,i64)",
+                PerTickSeq,
+                None,
+                Ref::PerTick(|s, n| {
+                    let a = batches::<i64>(s, 0, n);
+                    let mut i = 0usize;
+                    (0..n)
+                        .map(|t| {
+                            enc(a[t]
+                                .iter()
+                                .map(|x| {
+                                    i += 1;
+                                    (i - 1, *x)
+                                })
+                                .collect())
+                        })
+                        .collect()
+                }),
+            ),
+            (
+                "i64",
+                PerTickSeq,
+                None,
+                Ref::PerTick(|s, n| {
+                    let a = batches::<i64>(s, 0, n);
+                    let mut acc = 0i64;
+                    (0..n)
+                        .map(|t| {
+                            enc(a[t]
+                                .iter()
+                                .map(|x| {
+                                    acc += x;
+                                    acc
+                                })
+                                .collect())
+                        })
+                        .collect()
+                }),
+            ),
+            (
+                "i64",
+                PerTickSeq,
+                None,
+                Ref::PerTick(|s, n| {
+                    let a = batches::<i64>(s, 0, n);
+                    let mut seen: Vec<i64> = vec![];
+                    (0..n)
+                        .map(|t| {
+                            let mut out = vec![];
+                            for x in &a[t] {
+                                if !seen.contains(x) {
+                                    seen.push(*x);
+                                    out.push(*x);
+                                }
+                            }
+                            enc(out)
+                        })
+                        .collect()
+                }),
+            ),
+            (
+                "i64",
+                PerTickSeq,
+                None,
+                Ref::PerTick(|s, n| {
+                    let a = batches::<i64>(s, 0, n);
+                    let mut best: Option<i64> = None;
+                    (0..n)
+                        .map(|t| {
+                            best = a[t].iter().cloned().chain(best).max();
+                            enc(best.into_iter().collect())
+                        })
+                        .collect()
+                }),
+            ),
+        ],
+        Traits { shared: true, ..tickp(true, &["across_ticks", "atomic", "enumerate", "scan", "unique", "max"]) },
+    );
+    b.add(
+        "t_across_keyed",
+        &["(i64,i64)"],
+        &[],
+        &[
+            (
+                "(i64,(usize,i64))",
+                PerTickKeyed,
+                None,
+                Ref::PerTick(|s, n| {
+                    let a = batches::<(i64, i64)>(s, 0, n);
+                    let mut counts: BTreeMap<i64, usize> = BTreeMap::new();
+                    (0..n)
+                        .map(|t| {
+                            enc(a[t]
+                                .iter()
+                                .map(|(k, v)| {
+                                    let c = counts.entry(*k).or_default();
+                                    *c += 1;
+                                    (*k, (*c - 1, *v))
+                                })
+                                .collect())
+                        })
+                        .collect()
+                }),
+            ),
+            (
+                "(i64,i64)",
+                PerTickBag,
+                None,
+                Ref::PerTick(|s, n| {
+                    let a = batches::<(i64, i64)>(s, 0, n);
+                    let mut all: Vec<(i64, i64)> = vec![];
+                    (0..n)
+                        .map(|t| {
+                            all.extend(a[t].iter().cloned());
+                            enc(per_key(&all, |_, vs| vec![vs.iter().fold(0i64, |acc, v| acc * 2 + v)]))
+                        })
+                        .collect()
+                }),
+            ),
+        ],
+        Traits { shared: true, ..tickp(true, &["across_ticks", "atomic", "keyed", "enumerate", "fold_keyed"]) },
+    );
     trusted(&mut b);
     // reproducers of confirmed findings
     b.add(
